@@ -31,10 +31,10 @@ func TestC37(t *testing.T) {
 	run := ev.Start("C37")
 	nHist, nOps := run.Pick(24, 400), run.Pick(700, 2000)
 	// hostileqos: consumers sign QoS excellence reports with any values the report validation lets through
-	wq := defaultWeights()
-	wq["rep_relay"], wq["rep_relay_astro"], wq["rep_relay_over1"], wq["epoch"] = 8, 12, 3, 10
-	profiles := []*Profile{profEconomic(), profUnusual(), {Name: "default", Providers: 6, Consumers: 3, Delegators: 2, Validators: 2, KeepPools: true},
-		{Name: "hostileqos", W: wq, Providers: 5, Consumers: 4, Delegators: 2, Validators: 2, KeepPools: true, EpochsToSave: 5, EpochBlocks: 4}}
+	hq := profRep(3)
+	hq.Name = "hostileqos"
+	hq.W["rep_relay"], hq.W["rep_relay_astro"], hq.W["month"] = 10, 30, 1
+	profiles := []*Profile{profEconomic(), profUnusual(), {Name: "default", Providers: 6, Consumers: 3, Delegators: 2, Validators: 2, KeepPools: true}, hq}
 	for h := 0; h < nHist; h++ {
 		prof := profiles[h%len(profiles)]
 		var pm *PanicMon
